@@ -15,4 +15,4 @@ Relevant source files (relative to the worktree): {', '.join(P['anchors']['files
 
 TASK: produce {n} independent, realistic changes to the library's non-test source — the kind of regression a maintainer could plausibly introduce (a refactor, an "optimisation", a wrong boundary, a dropped or narrowed lock, a reordered statement, a lost copy, a mishandled error path) — each of which BREAKS the property above while (a) everything still compiles (`go build ./...`) and (b) the complete existing test suite still passes unmodified (`go test -vet=off -count=1 ./...`; run the full suite at least once per change at the end). Prefer changes that need something specific to manifest — a particular interleaving, a fault at a particular point, a multi-step sequence of operations, an unusual input, or two cooperating sites that each look fine alone — NOT ones that ordinary use would expose at once. Do not modify or add *_test.go files in the patch, do not add build tags, do not touch go.mod.
 
-For each change k (1, 2, …) deliver in {wt}/_seed/{pid}-k/: `patch.diff` (`git diff` of the source change against HEAD; must apply with `git apply` on a clean HEAD), a demonstration (`demo_test.go` placed so it can be copied into the right package directory, or a small `main` program) with the exact command to run it, that FAILS with the change and PASSES without it — verify BOTH by actually running it with and without the patch — and `meta.json` = {{"property": "{pid}", "summary": "...", "needs_to_manifest": "...", "files": [...], "demo_cmd": "...", "ran": ["commands you ran and their outcome"]}}. Leave the worktree at a clean HEAD apart from the untracked `_seed` directory (`git status --short` shows only `_seed/`). Final message: for each change a 3-line description, plus the commands you ran and their results.""")
+For each change k (1, 2, …) deliver in {wt}/_seed/{pid}-k/: `patch.diff` (`git diff` of the source change against HEAD; must apply with `git apply` on a clean HEAD), a demonstration (`demo_test.go` placed so it can be copied into the right package directory, or a small `main` program) with the exact command to run it, that FAILS with the change and PASSES without it — verify BOTH by actually running it with and without the patch — and `meta.json` = {{"property": "{pid}", "summary": "...", "needs_to_manifest": "...", "files": [...], "demo_cmd": "...", "ran": ["commands you ran and their outcome"]}}. Do NOT use `git stash` (the stash is shared by all worktrees of the repository and other agents are working in sibling worktrees): to test without your change use `git diff > /tmp/x.diff; git apply -R /tmp/x.diff` and re-apply afterwards. Leave the worktree at a clean HEAD apart from the untracked `_seed` directory (`git status --short` shows only `_seed/`). Final message: for each change a 3-line description, plus the commands you ran and their results.""")
